@@ -130,6 +130,16 @@ fn main() {
         std::process::exit(0);
     }
 
+    if args.iter().any(|a| a == "--memcheck-only") {
+        // development aid: run only the sanitizer lane and print its counters
+        let mut m = Outcome::new(&prop, "");
+        memcheck_lane(&prop, seed, spec.memcheck_shards.max(1), &mut m);
+        println!("{}", serde_json::to_string_pretty(&m.counters).unwrap());
+        for v in &m.violations {
+            println!("violated: [{}] {}", v.signature, v.what);
+        }
+        std::process::exit(0);
+    }
     let t0 = clock::real_mono_ns();
     let nshards = if thorough {
         spec.shards_thorough
@@ -196,6 +206,12 @@ fn main() {
         let _ = std::fs::remove_dir_all(&tmpdir);
     }
     merged.property = prop.clone();
+    // ---- secondary sanitizer lane (thorough tier only): the same binary, a reduced shard of the
+    //      quick workload, under valgrind memcheck. A memory error there is a violation of the
+    //      property whose workload reached it; it decides nothing by being silent.
+    if thorough && spec.memcheck_shards > 0 && std::env::var("CSVERIF_NO_MEMCHECK").is_err() {
+        memcheck_lane(&prop, seed, spec.memcheck_shards, &mut merged);
+    }
     let wall = (clock::real_mono_ns() - t0) as f64 / 1e9;
     let info = RunInfo {
         tier,
@@ -207,4 +223,97 @@ fn main() {
     };
     let code = outcome::finish(&merged, &info);
     std::process::exit(code);
+}
+
+fn memcheck_lane(prop: &str, seed: u64, k: u64, merged: &mut Outcome) {
+    let exe = std::env::current_exe().expect("exe");
+    let dir = util::scratch_dir(&format!("{}-memcheck", prop));
+    let log = format!("{}/valgrind.%p.log", dir);
+    let outp = format!("{}/outcome.json", dir);
+    let t0 = clock::real_mono_ns();
+    let child = std::process::Command::new("valgrind")
+        .arg("--error-exitcode=97")
+        .arg("--trace-children=yes")
+        .arg("--num-callers=25")
+        .arg(format!("--log-file={}", log))
+        .arg(&exe)
+        .arg(prop)
+        .arg("--tier")
+        .arg("quick")
+        .arg("--seed")
+        .arg(seed.to_string())
+        .arg("--shard")
+        .arg(format!("0/{}", k))
+        .arg("--out")
+        .arg(&outp)
+        .env("CSVERIF_NO_MEMCHECK", "1")
+        .stdout(std::process::Stdio::null())
+        .stderr(std::process::Stdio::null())
+        .spawn();
+    let mut child = match child {
+        Ok(c) => c,
+        Err(e) => {
+            merged.note(&format!("memcheck lane not run: valgrind could not be started ({e})"));
+            return;
+        }
+    };
+    // generous wall-clock budget; expiry means "lane inconclusive", never a violation
+    let status = loop {
+        match child.try_wait() {
+            Ok(Some(st)) => break Some(st),
+            Ok(None) => {}
+            Err(_) => break None,
+        }
+        if (clock::real_mono_ns() - t0) / 1_000_000_000 > 1500 {
+            let _ = child.kill();
+            let _ = child.wait();
+            break None;
+        }
+        std::thread::sleep(std::time::Duration::from_millis(300));
+    };
+    let mut errors = 0u64;
+    let mut contexts = 0u64;
+    let mut processes = 0u64;
+    let mut first_report = String::new();
+    if let Ok(rd) = std::fs::read_dir(&dir) {
+        for e in rd.flatten() {
+            let name = e.file_name().to_string_lossy().to_string();
+            if !name.starts_with("valgrind.") {
+                continue;
+            }
+            processes += 1;
+            let text = std::fs::read_to_string(e.path()).unwrap_or_default();
+            for line in text.lines() {
+                if let Some(pos) = line.find("ERROR SUMMARY:") {
+                    let nums: Vec<u64> = line[pos..].split_whitespace().filter_map(|w| w.parse().ok()).collect();
+                    if nums.len() >= 2 {
+                        errors += nums[0];
+                        contexts += nums[1];
+                    }
+                }
+            }
+            if first_report.is_empty() && (text.contains(" Invalid ") || text.contains("uninitialised")) {
+                first_report = text.lines().filter(|l| !l.contains("ERROR SUMMARY")).take(40).collect::<Vec<_>>().join("\n");
+            }
+        }
+    }
+    let evals = std::fs::read(&outp).ok().and_then(|b| serde_json::from_slice::<Outcome>(&b).ok()).map(|o| o.evaluations).unwrap_or(0);
+    merged.count("memcheck.processes_under_valgrind", processes);
+    merged.count("memcheck.evaluations_under_valgrind", evals);
+    merged.count("memcheck.errors", errors);
+    merged.count("memcheck.error_contexts", contexts);
+    merged.count("memcheck.wall_s", ((clock::real_mono_ns() - t0) / 1_000_000_000) as u64);
+    match status {
+        None => merged.note("memcheck lane: wall-clock budget (25 min) expired; lane inconclusive, not a verdict"),
+        Some(st) => {
+            if errors > 0 || st.code() == Some(97) {
+                merged.violation(
+                    &format!("{}/memcheck/memory-error", prop),
+                    &format!("valgrind memcheck reported {} error(s) from {} context(s) while running this property's workload", errors, contexts),
+                    serde_json::json!({"seed": seed, "shard": format!("0/{}", k), "first_report": first_report}),
+                );
+            }
+        }
+    }
+    let _ = std::fs::remove_dir_all(&dir);
 }
